@@ -43,6 +43,10 @@ def RtInput.wf (i : RtInput) : Bool :=
                         c.units.all (fun u => nalWF u.2)) &&
   (i.disable || paired i.nals)
 
+/-- the per-call part of the hypotheses, as a proposition (what `RtInput.wf` tests per call) -/
+def RtCall.WF (c : RtCall) : Prop :=
+  3 ≤ c.mtu.toNat ∧ (c.bare = true → c.units.length = 1) ∧ ∀ u ∈ c.units, nalWF u.2 = true
+
 /-- the units that must arrive, in order -/
 def RtInput.expected (i : RtInput) : List Bytes := i.nals.filter (fun n => !isDropped n)
 
